@@ -456,7 +456,8 @@ where
             self.refs.set(id, XRef::Raw { pos: pos as _, gen_nr: gen });
             writeln!(self.backend, "{} {} obj", id, gen)?;
             primitive.serialize(&mut self.backend)?;
-            writeln!(self.backend, "endobj")?;
+            // a number, name, null or string would otherwise run into the keyword ("42endobj")
+            writeln!(self.backend, "\nendobj")?;
         }
 
         let xref_pos = self.backend.len();
